@@ -1480,6 +1480,32 @@ class Explorer:
             # Extend::extend(vec, citer) / FromIterator: the concrete thing is the second argument
             if nm == "extend" and len(args) == 2 and self.cseq_at(st, args[1]) is not None and args[0][0] == "ref":
                 return self.cseq_extend(st, stack, args, dest, target, site)
+            # a lazy adaptor chain with a local closure over an iterator of unknown length (`set.drain().filter_map(|id| ..)`):
+            # remembered as such; a consumer below runs it on 0 .. closure_k abstract elements
+            a00 = args[0]
+            if a00[0] == "ref":
+                a00 = self.read_loc(st, a00[1], a00[2])
+            if nm in ("map", "filter", "filter_map") and len(args) == 2 and "Iterator" in path and self.closure_of(st, args[1]) is not None \
+                    and self.closure_of(st, args[1])[1] in self.F.fns and a00[0] in ("sym", "liter"):
+                src, ads = (a00[1], a00[2]) if a00[0] == "liter" else (a00, ())
+                return self.cseq_finish(st, stack, dest, target, site, ("liter", src, ads + ((nm, args[1]),)))
+            if nm == "extend" and len(args) == 2 and args[0][0] == "ref" and args[1][0] == "liter" and "GenericEvent" in repr(info.get("targs")):
+                _, src, ads = args[1]
+                first_clo = self.closure_of(st, ads[0][1])
+                alts = []
+                for n_ in range(0, self.closure_k + 1):
+                    s2 = st.clone()
+                    k2 = self.clone_stack(stack)
+                    srci = self.intern(src) if term_depth(src) > 3 else src
+                    items = [SYM(("elem", first_clo[1], 2, i_ + 1, srci)) for i_ in range(n_)]
+                    cs = self.cseq_new(s2, "abs", items)
+                    r_ = self.cseq_extend(s2, k2, [args[0], ("citer", cs[1], cs[2], 0, ads, False)], dest, target, site)
+                    if r_ != "stop":
+                        alts.append((s2, k2))
+                if not alts:
+                    self.finish_path(st, None, "diverge")
+                    return "stop"
+                return ("fork", alts)
             return None
         OPT = "std::option::Option"
         fin = lambda s_, k_, v: self.cseq_finish(s_, k_, dest, target, site, v)
